@@ -105,6 +105,13 @@ def run(res, tier, seed, driver_ok):
         st = np.asarray(arm._theta, dtype=float).reshape(-1)
         ee = arm.getEEPos().gTM()
         cands = [spec.fk(baseT, spec.M, np.clip(st, -lim, lim)), spec.fk(baseT, spec.M, st)]
+        if np.any((np.abs(st) > 0) & (np.abs(st) < 1e-6)):
+            # a stored joint angle inside the exponential's 1e-6 cut-off band (e.g. 2*pi + 5e-7 wrapped by angleMod): the library's FK
+            # treats that joint as not turned, the exact product of exponentials differs by up to 1e-6 * lever. The pose of the stored
+            # vector *as the library computes it* is the reference then (the band itself is the C12/C01 known-finding topic, not C07's).
+            from basic_robotics.general import fmr as _fmr
+            cands.append(np.asarray(_fmr.FKinSpace(arm._end_effector_home.gTM(), np.ascontiguousarray(arm.screw_list, dtype=float), st.copy()), dtype=float))
+            stats['joint_angle_in_cutoff_band'] = stats.get('joint_angle_in_cutoff_band', 0) + 1
         if min(G.maxdiff(ee, c) for c in cands) > 1e-7 * max(1.0, np.max(np.abs(ee))):
             bad('incoherent-after-%s:%s' % ('success' if ok else 'failure', path), 'after IK the reported tool pose is not the pose of the stored joint vector', inp,
                 {'diff': min(G.maxdiff(ee, c) for c in cands)})
